@@ -83,6 +83,14 @@ func concGenLedger(rng *Rng, tier string) *ConcCase {
 	for a := 1; a <= 6; a++ {
 		c.Ops = append(c.Ops, CoreOp{Kind: "app_add", App: fmt.Sprintf("app-%d", a), Queue: leaves[a-1], User: []string{"u1", "u2", "u3"}[a%3], Groups: []string{"g1"}})
 	}
+	// one more application per user in root.c with an allocation the RM bound and never releases: the user trackers never
+	// become empty (see ConcCase.StableUsers)
+	c.StableUsers = true
+	for u := 1; u <= 3; u++ {
+		app := fmt.Sprintf("app-keep-%d", u)
+		c.Ops = append(c.Ops, CoreOp{Kind: "app_add", App: app, Queue: "root.c", User: fmt.Sprintf("u%d", u), Groups: []string{"g1"}})
+		c.Ops = append(c.Ops, CoreOp{Kind: "alloc", App: app, Key: fmt.Sprintf("keep-%d", u), Node: fmt.Sprintf("node-%d", u), Res: CoreRes{"memory": 1, "vcore": 1}, AgeSec: 3600})
+	}
 	nasks := 160 + rng.Intn(80)
 	if tier == "thorough" {
 		nasks = 260 + rng.Intn(120)
@@ -121,7 +129,7 @@ func concGenLedger(rng *Rng, tier string) *ConcCase {
 // calm workloads: a release generated blindly (not in answer to an allocation event), which can hit the window between
 // Application.tryAllocate and PartitionContext.allocate.
 func concTrigger(c *ConcCase) bool {
-	if c.Ledger {
+	if c.Ledger || c.Ugm {
 		return false
 	}
 	seen := map[string]bool{}
@@ -143,20 +151,32 @@ func concTrigger(c *ConcCase) bool {
 	return false
 }
 
+// workload classes by case index (i mod 6): 0 calm, 1 ledger, 2 full, 3 first-use (ugm), 4 ledger with a tight maximum, 5 full
 func concGen(rng *Rng, i int, tier string) (*ConcCase, error) {
-	if i%3 == 1 || os.Getenv("CONC_LEDGER") == "1" { // CONC_LEDGER: development knob
-		c := concGenLedger(rng, tier)
-		if i%10 == 4 {
+	knob := os.Getenv("CONC_CLASS") // development knob: calm, ledger, ledgermax, ugm, full
+	if (knob == "" && i%6 == 1) || knob == "ledger" || (knob == "" && i%6 == 4) || knob == "ledgermax" {
+		var c *ConcCase
+		if (knob == "" && i%6 == 4) || knob == "ledgermax" {
+			c = concGenLedgerMax(rng, tier)
+		} else {
+			c = concGenLedger(rng, tier)
+		}
+		if i%30 == 4 {
 			c.YieldSeed = 0
 		}
 		c.GoDeadlock = i%15 == 7
+		return c, nil
+	}
+	if (knob == "" && i%6 == 3) || knob == "ugm" {
+		c := concGenUgm(rng, tier)
+		c.GoDeadlock = i%30 == 9
 		return c, nil
 	}
 	maxOps := 130
 	if tier == "thorough" {
 		maxOps = 220
 	}
-	variant := concVariants[i%len(concVariants)]
+	variant := concVariants[(i/2)%len(concVariants)]
 	cc, err := genCoreCase(rng.Fork(), maxOps, variant)
 	if err != nil {
 		return nil, err
@@ -170,7 +190,7 @@ func concGen(rng *Rng, i int, tier string) (*ConcCase, error) {
 	// every third case is a CALM workload: no application removal, reload, node removal, timers, queue cleaning, gang
 	// scheduling or resource updates of existing allocations (the operations behind the recorded ledger-drift findings);
 	// its final state is judged strictly. The other cases use the full mix.
-	calm := i%3 == 0 || os.Getenv("CONC_CALM") == "1" // CONC_CALM: development knob
+	calm := (knob == "" && i%6 == 0) || knob == "calm"
 	c.Calm = calm
 	seenKey := map[string]bool{}
 	for _, op := range cc.Ops {
@@ -208,9 +228,9 @@ func concGen(rng *Rng, i int, tier string) (*ConcCase, error) {
 		c.Ops = append(c.Ops, op)
 	}
 	switch {
-	case i%10 == 9:
+	case i%10 == 8 || i%10 == 5:
 		c.Mode = "seq" // baseline run of the same kind of workload from one goroutine
-	case i%10 == 4:
+	case i%10 == 2:
 		c.YieldSeed = 0 // no wrapper yields: the Go scheduler's own interleavings
 	}
 	c.GoDeadlock = i%5 == 2
@@ -246,9 +266,11 @@ func concCoqEdges(res *ConcResult) string {
 	return "[" + b.String() + "]"
 }
 
-// workload class as emitted to Coq: 0 full, 1 calm, 2 ledger
+// workload class as emitted to Coq: 0 full, 1 calm, 2 ledger, 3 first use of users / groups
 func concClass(c *ConcCase) int {
 	switch {
+	case c.Ugm:
+		return 3
 	case c.Ledger:
 		return 2
 	case c.Calm:
@@ -264,8 +286,18 @@ func concCoqCase(c *ConcCase) string {
 		cyc = append(cyc, fmt.Sprintf("%d", e.From))
 	}
 	final := "empty_state"
+	em := newCoreEmitter()
 	if res.Observed && res.Final != nil {
-		final = newCoreEmitter().obs(res.Final)
+		final = em.obs(res.Final)
+	}
+	users := make([]string, 0, len(c.UserGroups))
+	for u := range c.UserGroups {
+		users = append(users, u)
+	}
+	sort.Strings(users)
+	ug := make([]string, len(users))
+	for i, u := range users {
+		ug[i] = fmt.Sprintf("(%s, %s)", em.n(u), em.n(c.UserGroups[u]))
 	}
 	npanic := len(res.Panics)
 	if res.Fatal != "" {
@@ -283,7 +315,8 @@ func concCoqCase(c *ConcCase) string {
 		}
 	}
 	b.WriteString("(mkConc\n   " + concCoqEdges(res) + "\n   [" + strings.Join(singles, "; ") + "] [" + strings.Join(ranks, "; ") + "]\n   [" + strings.Join(cyc, "; ") + "] " + fmt.Sprint(concClass(c)) + " " + coqBool(c.Trigger) + " " + coqBool(res.Observed) + "\n   " + final + "\n   ")
-	b.WriteString(fmt.Sprintf("%d %d %d %d)", len(res.Blocked), len(res.GoDeadlock), npanic, len(res.Races)))
+	b.WriteString(fmt.Sprintf("%d %d %d %d\n   %s split_baseline %s [%s] %s", len(res.Blocked), len(res.GoDeadlock), npanic, len(res.Races),
+		concCoqSplits(res), coqBool(res.SplitMonitor || !res.Observed), strings.Join(ug, "; "), em.nlist(c.MaxStrict)) + " " + coqBool(c.StableUsers) + ")")
 	return b.String()
 }
 
@@ -331,8 +364,17 @@ func concChild(o *Opts) {
 		if o.Replay != "" {
 			c = &cases[i]
 			c.Result = nil
+			// a fact about the workload, not an observation: recomputed (pinned cases stored before the field existed)
+			c.Trigger = concTrigger(c)
 		} else {
-			c, err = concGen(rng, base+i, o.Tier)
+			// a generated world can be rejected by the sequential pre-run of the core generator: try again (the
+			// generator has advanced), so that the mix of workload classes stays as planned
+			for attempt := 0; attempt < 8; attempt++ {
+				c, err = concGen(rng, base+i, o.Tier)
+				if err == nil {
+					break
+				}
+			}
 			if err != nil {
 				continue
 			}
@@ -590,6 +632,16 @@ func concEngine(o *Opts) {
 	var all ConcCases
 	var b strings.Builder
 	b.WriteString(concRequires)
+	sbase := concBaseline()
+	bids := []string{}
+	for _, id := range sbase.ids() {
+		bids = append(bids, fmt.Sprint(id))
+	}
+	b.WriteString(fmt.Sprintf("(* reviewed split critical sections: %s (%d entries) *)\n", sbase.Path, len(bids)))
+	b.WriteString("Definition split_baseline : list N := [" + strings.Join(bids, "; ") + "].\n")
+	if sbase.Path == "" {
+		notes = append(notes, "corpus/conc_split_baseline.json not found: every split critical section counts as new")
+	}
 	names := []string{}
 	for i := range lines {
 		c := &lines[i].Case
@@ -602,7 +654,25 @@ func concEngine(o *Opts) {
 		all.Cases = append(all.Cases, *c)
 		// statistics
 		st.Count("mode." + c.Mode)
-		st.Count([]string{"workload.full", "workload.calm", "workload.ledger"}[concClass(c)])
+		st.Count([]string{"workload.full", "workload.calm", "workload.ledger", "workload.firstuse"}[concClass(c)])
+		if len(c.MaxStrict) > 0 {
+			st.Count("workload.ledger.tight.maximum")
+		}
+		if c.StableUsers {
+			st.Count("workload.stable.users")
+		}
+		for _, sp := range res.Splits {
+			st.Distribution["split."+sp.Key] += int(sp.Count)
+		}
+		for k, v := range res.ForeignSplits {
+			st.Distribution["foreign_split."+k] += int(v)
+		}
+		for _, k := range res.NewSplits {
+			st.Count("split.NEW " + k)
+		}
+		if !res.SplitMonitor && res.Observed {
+			st.Count("split.monitor.unavailable")
+		}
 		if c.Trigger {
 			st.Count("workload.with.trigger.ops")
 		}
